@@ -73,25 +73,46 @@ func (o *Obj) target() time.Time {
 	return o.OCSP.NextUpdate
 }
 
-// lintObj runs the top-level entry point; a panic reaching the caller is reported.
+// lintTimeout bounds one top-level lint call. C01 says the call returns ("no hang"): a call that has not returned
+// after this long is reported as a hang (its goroutine is abandoned; it keeps a core busy until the process exits).
+const lintTimeout = 20 * time.Second
+
+const hangMarker = "HANG: no result after "
+
+// lintObj runs the top-level entry point; a panic reaching the caller is reported, and so is a call that does not return.
 func lintObj(o *Obj, reg lint.Registry) (rs *zlint.ResultSet, panicMsg string) {
-	defer func() {
-		if e := recover(); e != nil {
-			panicMsg = fmt.Sprint(e)
-			if panicMsg == "" {
-				panicMsg = "panic"
+	type answer struct {
+		rs *zlint.ResultSet
+		p  string
+	}
+	ch := make(chan answer, 1)
+	go func() {
+		var a answer
+		defer func() {
+			if e := recover(); e != nil {
+				a.p = fmt.Sprint(e)
+				if a.p == "" {
+					a.p = "panic"
+				}
+				a.rs = nil
 			}
+			ch <- a
+		}()
+		switch o.Kind {
+		case "cert":
+			a.rs = zlint.LintCertificateEx(o.Cert, reg)
+		case "crl":
+			a.rs = zlint.LintRevocationListEx(o.CRL, reg)
+		case "ocsp":
+			a.rs = zlint.LintOcspResponseEx(o.OCSP, reg)
 		}
 	}()
-	switch o.Kind {
-	case "cert":
-		rs = zlint.LintCertificateEx(o.Cert, reg)
-	case "crl":
-		rs = zlint.LintRevocationListEx(o.CRL, reg)
-	case "ocsp":
-		rs = zlint.LintOcspResponseEx(o.OCSP, reg)
+	select {
+	case a := <-ch:
+		return a.rs, a.p
+	case <-time.After(lintTimeout):
+		return nil, hangMarker + lintTimeout.String()
 	}
-	return
 }
 
 type metaOf struct {
@@ -361,6 +382,10 @@ func replayOf(o *Obj, extra map[string]interface{}) map[string]interface{} {
 }
 
 func (s *sweepState) checkC01(o *Obj, reg lint.Registry, rs *zlint.ResultSet, pmsg string, regDesc string) {
+	if s.props["C01"] && strings.HasPrefix(pmsg, hangMarker) {
+		s.rep.violate(Violation{"C01", fmt.Sprintf("linting %s (%s, registry %s) does not return: %s", o.Name, o.Kind, regDesc, pmsg), "hang:" + o.Kind, replayOf(o, map[string]interface{}{"registry": regDesc})})
+		return
+	}
 	if !s.props["C01"] {
 		return
 	}
@@ -425,7 +450,7 @@ func (s *sweepState) checkC02(o *Obj, rs *zlint.ResultSet, pmsg string) {
 	if !s.props["C02"] {
 		return
 	}
-	if pmsg != "" && o.Kind != "cert" {
+	if pmsg != "" && o.Kind != "cert" && !strings.HasPrefix(pmsg, hangMarker) {
 		s.rep.violate(Violation{"C02", fmt.Sprintf("%s linting of %s panicked: %s", o.Kind, o.Name, pmsg), "panic:" + o.Kind + ":" + firstLine(pmsg), replayOf(o, map[string]interface{}{"panic": pmsg})})
 	}
 	if rs == nil {
